@@ -115,12 +115,23 @@ impl Check for C30 {
         "C30"
     }
     fn rule(&self) -> String {
-        "case = document text (generated valid grammars, token / byte level mutants, random strings, with LF, CRLF or per-line mixed line ends and multi-byte characters in comments at line starts and ends) opened in a fresh Server (in-memory connection) x positions (every line start and end, positions inside and one beyond every line, beyond the last line, huge values) x requests: hover, go-to-definition, document symbols, prepare-rename, rename, formatting, code action with the diagnostics the server itself published; oracle: the driver's catch_unwind sees no panic and the process stays alive; pos_to_offset returns an offset <= text length that lies on a character boundary. Evaluations = requests sent. Non-trivial = position beyond a line end or inside a line with multi-byte characters; distinct by (text, position)".into()
+        "case = document text (generated valid grammars, %on / %skip directive texts with tokens of other scanner states and comments that mention the keywords, token / byte level mutants, random strings, with LF, CRLF or per-line mixed line ends and multi-byte characters in comments at line starts and ends) opened in a fresh Server (in-memory connection) x positions (every line start and end, positions inside and one beyond every line, beyond the last line, huge values) x requests: hover, go-to-definition, document symbols, prepare-rename, rename, formatting, code action with the diagnostics the server itself published; oracle: the driver's catch_unwind sees no panic and the process stays alive; pos_to_offset returns an offset <= text length that lies on a character boundary. Evaluations = requests sent. Non-trivial = position beyond a line end or inside a line with multi-byte characters; distinct by (text, position)".into()
     }
     fn strategy(&self, tier: Tier) -> BoxedStrategy<CrashCase> {
         let random = proptest::collection::vec(0usize..PAR_TOKENS_PUB.len(), 0..40).prop_map(|v| v.into_iter().map(|i| PAR_TOKENS_PUB[i]).collect::<Vec<_>>().join(" "));
         let unicode = proptest::collection::vec(any::<char>(), 0..30).prop_map(|v| v.into_iter().collect::<String>());
-        let base = prop_oneof![6 => valid_texts(tier), 1 => random, 1 => unicode];
+        // %on / %skip directives naming tokens that do or do not belong to the scanner state, with
+        // trailing comments that mention the directive keywords: the texts for which the server
+        // publishes token_not_in_scanner diagnostics and offers quick fixes
+        let directives = tape(6..7).prop_map(|tp| {
+            let mut t = Tape { data: &tp, pos: 0 };
+            let cmts = ["", " // x", " // B was moved here from the %skip list", " # %skip", " // %on %skip \u{e4}", " /* %skip */"];
+            let d1 = ["%on B %enter M", "%on A %enter M", "%skip B", "%skip A,\n    B", ""][t.next(5)];
+            let d2 = ["%skip A", "%on A %enter INITIAL", "%skip B", "%skip A,\n        B", "%on B %enter INITIAL"][t.next(5)];
+            let (c1, c2) = (cmts[t.next(cmts.len())], cmts[t.next(cmts.len())]);
+            format!("%start S\n{d1}{c1}\n%scanner M {{\n    {d2}{c2}\n}}\n%%\nS: A B;\nA: 'a';\nB: <M>'b';\n")
+        });
+        let base = prop_oneof![6 => valid_texts(tier), 1 => random, 1 => unicode, 1 => directives];
         (base, tape(8..24), any::<u8>(), proptest::collection::vec((0u32..12, 0u32..40), 6))
             .prop_map(|(t, tp, style, extra)| {
                 let mut text = mutate_text_pub(&t, &mut Tape { data: &tp, pos: 0 });
